@@ -32,10 +32,20 @@ ConeCmds(cs, n) == IF n = 0 THEN cs ELSE
   ConeCmds(cs \cup UNION {Producers(x) : x \in UNION {SeqToSet(Cmd(c).ins) \cup SeqToSet(Cmd(c).reads) : c \in cs}}, n - 1)
 Cone(c) == ConeCmds({c}, Cardinality(Cmds))
 ConeNodes(c) == UNION {SeqToSet(Cmd(x).ins) \cup SeqToSet(Cmd(x).reads) \cup SeqToSet(Cmd(x).outs) : x \in Cone(c)}
+(* what an observer of a directory input sees, stated independently of the recursive TreeObs/StructObs of the   *)
+(* specification: the flat set of visible paths beneath it with their stamps (types only for a structure input) *)
+HiddenBy(F, q, filt) == SeqToSet(F[q].hid) \cap SeqToSet(filt) # {}
+VisibleBeneath(F, p, filt) ==
+  {q \in DOMAIN F : /\ p \in Ancestors(F, q) /\ Exists(F, q) /\ ~HiddenBy(F, q, filt)
+                    /\ \A a \in Ancestors(F, q) : (p \in Ancestors(F, a)) => (Exists(F, a) /\ F[a].t = "dir" /\ ~HiddenBy(F, a, filt))
+                    /\ F[p].t = "dir"}
+FlatTree(F, p, filt) == <<IF Exists(F, p) THEN (IF filt = <<>> \/ F[p].t # "dir" THEN F[p].s ELSE -1) ELSE 0,
+                         {<<q, F[q].s>> : q \in VisibleBeneath(F, p, filt)}>>
+FlatStruct(F, p, filt) == <<IF Exists(F, p) THEN F[p].t ELSE "none", {<<q, F[q].t>> : q \in VisibleBeneath(F, p, filt)}>>
 NodeObs(F, n) ==
   CASE NodeRec(n).kind = "virtual" -> <<>>
-    [] NodeRec(n).kind = "dir" -> TreeObs(F, PathOf(n), NodeRec(n).filt)
-    [] NodeRec(n).kind = "dirstruct" -> StructObs(F, PathOf(n), NodeRec(n).filt)
+    [] NodeRec(n).kind = "dir" -> FlatTree(F, PathOf(n), NodeRec(n).filt)
+    [] NodeRec(n).kind = "dirstruct" -> FlatStruct(F, PathOf(n), NodeRec(n).filt)
     [] OTHER -> <<Info(F, PathOf(n))>>
 ConeState(c, F) == <<[x \in Cone(c) |-> CmdSig(x)], [n \in ConeNodes(c) |-> NodeObs(F, n)]>>
 
